@@ -10,99 +10,88 @@ namespace YangVerif.IfFeature
 variable (env : String → Bool)
 
 /-- unfolding of one iteration for a token that is not ")" -/
-theorem evalF_step (f : Nat) (g : Bool) (t : Tok) (r : List Tok) (st : List Bool) (ht : t ≠ .rp) :
-    evalF false env (f + 1) g (t :: r) st =
-      match switchF (evalF false env f) false env t r st with
+theorem evalF_step (f : Nat) (g : Bool) (t : Tok) (r : List Tok) (cur : Option Bool) (ht : t ≠ .rp) :
+    evalF env (f + 1) g (t :: r) cur =
+      match switchF (fun g' r' => evalF env f g' r' none) env t r cur with
       | none => none
-      | some (r', s') => if g then some (r', s') else evalF false env f false r' s' := by
+      | some (r', c') => if g then some (r', c') else evalF env f false r' c' := by
   rw [evalF.eq_def]
   simp only [ht, if_false]
   rfl
 
-/-- the switch only gets better with a better nested evaluator -/
-theorem switchF_mono (rec1 rec2 : Bool → List Tok → List Bool → Option St)
-    (hrec : ∀ g toks st R, rec1 g toks st = some R → rec2 g toks st = some R)
-    (t : Tok) (r : List Tok) (st : List Bool) (R : St)
-    (h : switchF rec1 false env t r st = some R) : switchF rec2 false env t r st = some R := by
-  cases t with
-  | rp => simp [switchF] at h
-  | feat s => simpa [switchF] using h
-  | lp =>
-    simp only [switchF] at h ⊢
-    cases hn : rec1 false r st with
+/-- the switch only gets better with a nested evaluator that succeeds more often (on the rest `r`) -/
+theorem switchF_congr (rec1 rec2 : Bool → List Tok → Option St) (t : Tok) (r : List Tok) (cur : Option Bool)
+    (hrec : ∀ g R, rec1 g r = some R → rec2 g r = some R) (R : St)
+    (h : switchF rec1 env t r cur = some R) : switchF rec2 env t r cur = some R := by
+  cases t <;> cases cur <;> simp only [switchF] at h ⊢ <;> try (first | exact h | cases h)
+  · -- lp, none
+    cases hn : rec1 false r with
     | none => simp [hn] at h
-    | some p => rw [hrec _ _ _ _ hn]; rw [hn] at h; exact h
-  | and =>
-    simp only [switchF] at h ⊢
-    cases hn : rec1 true r st with
+    | some p => rw [hrec _ _ hn]; rw [hn] at h; exact h
+  · -- and, some
+    cases hn : rec1 true r with
     | none => simp [hn] at h
-    | some p => rw [hrec _ _ _ _ hn]; rw [hn] at h; exact h
-  | or =>
-    simp only [switchF] at h ⊢
-    cases hn : rec1 false r st with
+    | some p => rw [hrec _ _ hn]; rw [hn] at h; exact h
+  · -- or, some
+    cases hn : rec1 false r with
     | none => simp [hn] at h
-    | some p => rw [hrec _ _ _ _ hn]; rw [hn] at h; exact h
-  | not =>
-    simp only [switchF] at h ⊢
-    cases hn : rec1 true r st with
+    | some p => rw [hrec _ _ hn]; rw [hn] at h; exact h
+  · -- not, none
+    cases hn : rec1 true r with
     | none => simp [hn] at h
-    | some p => rw [hrec _ _ _ _ hn]; rw [hn] at h; exact h
+    | some p => rw [hrec _ _ hn]; rw [hn] at h; exact h
 
 /-- more fuel never changes a successful result -/
-theorem evalF_mono : ∀ (f : Nat) (g : Bool) (toks : List Tok) (st : List Bool) (R : St),
-    evalF false env f g toks st = some R → evalF false env (f + 1) g toks st = some R := by
+theorem evalF_mono : ∀ (f : Nat) (g : Bool) (toks : List Tok) (cur : Option Bool) (R : St),
+    evalF env f g toks cur = some R → evalF env (f + 1) g toks cur = some R := by
   intro f
   induction f with
-  | zero => intro g toks st R h; simp [evalF] at h
+  | zero => intro g toks cur R h; simp [evalF] at h
   | succ f ih =>
-    intro g toks st R h
+    intro g toks cur R h
     cases toks with
     | nil => simpa [evalF] using h
     | cons t r =>
       by_cases ht : t = .rp
       · subst ht; simpa [evalF] using h
-      · rw [evalF_step env _ g t r st ht] at h ⊢
-        cases hs : switchF (evalF false env f) false env t r st with
+      · rw [evalF_step env _ g t r cur ht] at h ⊢
+        cases hs : switchF (fun g' r' => evalF env f g' r' none) env t r cur with
         | none => simp [hs] at h
         | some p =>
-          rw [switchF_mono env _ _ ih t r st p hs]
+          rw [switchF_congr env _ (fun g' r' => evalF env (f + 1) g' r' none) t r cur
+            (fun g R hh => ih g r none R hh) p hs]
           rw [hs] at h
-          obtain ⟨r', s'⟩ := p
+          obtain ⟨r', c'⟩ := p
           cases g with
           | true => simpa using h
           | false => simp only [Bool.false_eq_true, if_false] at h ⊢; exact ih _ _ _ _ h
 
-theorem evalF_mono_le (f f' : Nat) (hle : f ≤ f') (g : Bool) (toks : List Tok) (st : List Bool) (R : St)
-    (h : evalF false env f g toks st = some R) : evalF false env f' g toks st = some R := by
+theorem evalF_mono_le (f f' : Nat) (hle : f ≤ f') (g : Bool) (toks : List Tok) (cur : Option Bool) (R : St)
+    (h : evalF env f g toks cur = some R) : evalF env f' g toks cur = some R := by
   induction hle with
   | refl => exact h
   | step _ ih => exact evalF_mono env _ _ _ _ _ ih
 
 /-- "evaluates to R with some amount of fuel" -/
-def Evals (g : Bool) (toks : List Tok) (st : List Bool) (R : St) : Prop :=
-  ∃ f, evalF false env f g toks st = some R
+def Evals (g : Bool) (toks : List Tok) (cur : Option Bool) (R : St) : Prop :=
+  ∃ f, evalF env f g toks cur = some R
 
-end YangVerif.IfFeature
+theorem Evals.nil (cur : Option Bool) : Evals env false [] cur ([], cur) := ⟨1, by simp [evalF]⟩
 
-namespace YangVerif.IfFeature
-variable (env : String → Bool)
-
-theorem Evals.nil (st : List Bool) : Evals env false [] st ([], st) := ⟨1, by simp [evalF]⟩
-
-theorem Evals.rp (g : Bool) (r : List Tok) (st : List Bool) : Evals env g (.rp :: r) st (.rp :: r, st) :=
+theorem Evals.rp (g : Bool) (r : List Tok) (cur : Option Bool) : Evals env g (.rp :: r) cur (.rp :: r, cur) :=
   ⟨1, by simp [evalF]⟩
 
 /-- at the end of the input or in front of a ")" the loop stops and leaves everything as it is -/
-theorem Evals.stop (rest : List Tok) (st : List Bool) (h : rest = [] ∨ ∃ r, rest = .rp :: r) :
-    Evals env false rest st (rest, st) := by
+theorem Evals.stop (rest : List Tok) (cur : Option Bool) (h : rest = [] ∨ ∃ r, rest = .rp :: r) :
+    Evals env false rest cur (rest, cur) := by
   rcases h with rfl | ⟨r, rfl⟩
-  · exact Evals.nil env st
-  · exact Evals.rp env false r st
+  · exact Evals.nil env cur
+  · exact Evals.rp env false r cur
 
 /-- a non-greedy run = one greedy step, then the loop goes on -/
-theorem Evals.cont (t : Tok) (r : List Tok) (st : List Bool) (ht : t ≠ .rp) (r' : List Tok) (s' : List Bool) (R : St)
-    (h1 : Evals env true (t :: r) st (r', s')) (h2 : Evals env false r' s' R) :
-    Evals env false (t :: r) st R := by
+theorem Evals.cont (t : Tok) (r : List Tok) (cur : Option Bool) (ht : t ≠ .rp) (r' : List Tok) (c' : Option Bool) (R : St)
+    (h1 : Evals env true (t :: r) cur (r', c')) (h2 : Evals env false r' c' R) :
+    Evals env false (t :: r) cur R := by
   obtain ⟨f1, h1⟩ := h1
   obtain ⟨f2, h2⟩ := h2
   cases f1 with
@@ -111,8 +100,8 @@ theorem Evals.cont (t : Tok) (r : List Tok) (st : List Bool) (ht : t ≠ .rp) (r
     refine ⟨max f1 f2 + 1, ?_⟩
     have h1' := evalF_mono_le env (f1 + 1) (max f1 f2 + 1) (by omega) _ _ _ _ h1
     have h2' := evalF_mono_le env f2 (max f1 f2) (by omega) _ _ _ _ h2
-    rw [evalF_step env _ _ t r st ht] at h1' ⊢
-    cases hs : switchF (evalF false env (max f1 f2)) false env t r st with
+    rw [evalF_step env _ _ t r cur ht] at h1' ⊢
+    cases hs : switchF (fun g' r' => evalF env (max f1 f2) g' r' none) env t r cur with
     | none => simp [hs] at h1'
     | some p =>
       obtain ⟨a, b⟩ := p
@@ -120,30 +109,30 @@ theorem Evals.cont (t : Tok) (r : List Tok) (st : List Bool) (ht : t ≠ .rp) (r
       obtain ⟨rfl, rfl⟩ := h1'
       simpa using h2'
 
-theorem Evals.feat (s : String) (rest : List Tok) (st : List Bool) :
-    Evals env true (.feat s :: rest) st (rest, env s :: st) :=
+theorem Evals.feat (s : String) (rest : List Tok) :
+    Evals env true (.feat s :: rest) none (rest, some (env s)) :=
   ⟨1, by rw [evalF_step env _ _ _ _ _ (by simp)]; simp [switchF]⟩
 
-theorem Evals.notStep (toks rest : List Tok) (st : List Bool) (v : Bool)
-    (h : Evals env true toks st (rest, v :: st)) : Evals env true (.not :: toks) st (rest, (!v) :: st) := by
+theorem Evals.notStep (toks rest : List Tok) (v : Bool)
+    (h : Evals env true toks none (rest, some v)) : Evals env true (.not :: toks) none (rest, some (!v)) := by
   obtain ⟨f, h⟩ := h
-  exact ⟨f + 1, by rw [evalF_step env _ _ _ _ _ (by simp)]; simp [switchF, h, pop1]⟩
+  exact ⟨f + 1, by rw [evalF_step env _ _ _ _ _ (by simp)]; simp [switchF, h]⟩
 
-theorem Evals.andStep (toks rest : List Tok) (st : List Bool) (acc v : Bool)
-    (h : Evals env true toks (acc :: st) (rest, v :: acc :: st)) :
-    Evals env true (.and :: toks) (acc :: st) (rest, (acc && v) :: st) := by
+theorem Evals.andStep (toks rest : List Tok) (acc v : Bool)
+    (h : Evals env true toks none (rest, some v)) :
+    Evals env true (.and :: toks) (some acc) (rest, some (acc && v)) := by
   obtain ⟨f, h⟩ := h
-  exact ⟨f + 1, by rw [evalF_step env _ _ _ _ _ (by simp)]; simp [switchF, h, pop2]⟩
+  exact ⟨f + 1, by rw [evalF_step env _ _ _ _ _ (by simp)]; simp [switchF, h]⟩
 
-theorem Evals.orStep (toks rest : List Tok) (st : List Bool) (acc v : Bool)
-    (h : Evals env false toks (acc :: st) (rest, v :: acc :: st)) :
-    Evals env true (.or :: toks) (acc :: st) (rest, (acc || v) :: st) := by
+theorem Evals.orStep (toks rest : List Tok) (acc v : Bool)
+    (h : Evals env false toks none (rest, some v)) :
+    Evals env true (.or :: toks) (some acc) (rest, some (acc || v)) := by
   obtain ⟨f, h⟩ := h
-  exact ⟨f + 1, by rw [evalF_step env _ _ _ _ _ (by simp)]; simp [switchF, h, pop2]⟩
+  exact ⟨f + 1, by rw [evalF_step env _ _ _ _ _ (by simp)]; simp [switchF, h]⟩
 
-theorem Evals.parenStep (toks rest : List Tok) (st : List Bool) (v : Bool)
-    (h : Evals env false toks st (.rp :: rest, v :: st)) :
-    Evals env true (.lp :: toks) st (rest, v :: st) := by
+theorem Evals.parenStep (toks rest : List Tok) (v : Bool)
+    (h : Evals env false toks none (.rp :: rest, some v)) :
+    Evals env true (.lp :: toks) none (rest, some v) := by
   obtain ⟨f, h⟩ := h
   exact ⟨f + 1, by rw [evalF_step env _ _ _ _ _ (by simp)]; simp [switchF, h]⟩
 
@@ -157,150 +146,141 @@ theorem NotE.toks_head (n : NotE) : ∃ t r, n.toks = t :: r ∧ t ≠ .rp := by
   | not n => exact ⟨.not, n.toks, by simp [NotE.toks], by simp⟩
 
 mutual
-  theorem Prim.evals (p : Prim) : ∀ (rest : List Tok) (st : List Bool),
-      Evals env true (p.toks ++ rest) st (rest, p.sem env :: st) := by
+  theorem Prim.evals (p : Prim) : ∀ (rest : List Tok),
+      Evals env true (p.toks ++ rest) none (rest, some (p.sem env)) := by
     cases p with
-    | feat s => intro rest st; simpa [Prim.toks, Prim.sem] using Evals.feat env s rest st
+    | feat s => intro rest; simpa [Prim.toks, Prim.sem] using Evals.feat env s rest
     | paren o =>
-      intro rest st
-      have h := OrE.evals o (.rp :: rest) st (Or.inr ⟨rest, rfl⟩)
-      have := Evals.parenStep env (o.toks ++ .rp :: rest) rest st (o.sem env) h
+      intro rest
+      have h := OrE.evals o (.rp :: rest) (Or.inr ⟨rest, rfl⟩)
+      have := Evals.parenStep env (o.toks ++ .rp :: rest) rest (o.sem env) h
       simpa [Prim.toks, Prim.sem] using this
-  theorem NotE.evals (n : NotE) : ∀ (rest : List Tok) (st : List Bool),
-      Evals env true (n.toks ++ rest) st (rest, n.sem env :: st) := by
+  theorem NotE.evals (n : NotE) : ∀ (rest : List Tok),
+      Evals env true (n.toks ++ rest) none (rest, some (n.sem env)) := by
     cases n with
-    | prim p => intro rest st; simpa [NotE.toks, NotE.sem] using Prim.evals p rest st
+    | prim p => intro rest; simpa [NotE.toks, NotE.sem] using Prim.evals p rest
     | not n' =>
-      intro rest st
-      have h := NotE.evals n' rest st
-      simpa [NotE.toks, NotE.sem] using Evals.notStep env _ rest st _ h
-  /-- "and a" continues a conjunction whose value so far is on the stack -/
-  theorem AndE.evalsTail (a : AndE) : ∀ (acc : Bool) (rest : List Tok) (st : List Bool) (R : St),
-      Evals env false rest ((acc && a.sem env) :: st) R →
-      Evals env false (.and :: a.toks ++ rest) (acc :: st) R := by
+      intro rest
+      have h := NotE.evals n' rest
+      simpa [NotE.toks, NotE.sem] using Evals.notStep env _ rest _ h
+  /-- "and a" continues a conjunction whose value so far is `acc` -/
+  theorem AndE.evalsTail (a : AndE) : ∀ (acc : Bool) (rest : List Tok) (R : St),
+      Evals env false rest (some (acc && a.sem env)) R →
+      Evals env false (.and :: a.toks ++ rest) (some acc) R := by
     cases a with
     | one n =>
-      intro acc rest st R h
-      have hn := NotE.evals n rest (acc :: st)
-      have hs := Evals.andStep env (n.toks ++ rest) rest st acc (n.sem env) hn
-      have := Evals.cont env .and (n.toks ++ rest) (acc :: st) (by simp) rest _ R hs (by simpa [AndE.sem] using h)
+      intro acc rest R h
+      have hn := NotE.evals n rest
+      have hs := Evals.andStep env (n.toks ++ rest) rest acc (n.sem env) hn
+      have := Evals.cont env .and (n.toks ++ rest) (some acc) (by simp) rest _ R hs (by simpa [AndE.sem] using h)
       simpa [AndE.toks] using this
     | cons n a' =>
-      intro acc rest st R h
-      have hn := NotE.evals n (.and :: a'.toks ++ rest) (acc :: st)
-      have hs := Evals.andStep env _ _ st acc (n.sem env) hn
-      have ih := AndE.evalsTail a' (acc && n.sem env) rest st R (by simpa [AndE.sem, Bool.and_assoc] using h)
-      have := Evals.cont env .and _ (acc :: st) (by simp) _ _ R hs ih
+      intro acc rest R h
+      have hn := NotE.evals n (.and :: a'.toks ++ rest)
+      have hs := Evals.andStep env _ _ acc (n.sem env) hn
+      have ih := AndE.evalsTail a' (acc && n.sem env) rest R (by simpa [AndE.sem, Bool.and_assoc] using h)
+      have := Evals.cont env .and _ (some acc) (by simp) _ _ R hs ih
       simpa [AndE.toks, List.append_assoc] using this
-  theorem AndE.evals (a : AndE) : ∀ (rest : List Tok) (st : List Bool) (R : St),
-      Evals env false rest (a.sem env :: st) R → Evals env false (a.toks ++ rest) st R := by
+  theorem AndE.evals (a : AndE) : ∀ (rest : List Tok) (R : St),
+      Evals env false rest (some (a.sem env)) R → Evals env false (a.toks ++ rest) none R := by
     cases a with
     | one n =>
-      intro rest st R h
+      intro rest R h
       obtain ⟨t, r, hh, ht⟩ := NotE.toks_head n
-      have hn := NotE.evals n rest st
+      have hn := NotE.evals n rest
       simp only [AndE.toks, AndE.sem] at h ⊢
       rw [hh] at hn ⊢
-      exact Evals.cont env t (r ++ rest) st ht rest _ R hn h
+      exact Evals.cont env t (r ++ rest) none ht rest _ R hn h
     | cons n a' =>
-      intro rest st R h
+      intro rest R h
       obtain ⟨t, r, hh, ht⟩ := NotE.toks_head n
-      have hn := NotE.evals n (.and :: a'.toks ++ rest) st
-      have htail := AndE.evalsTail a' (n.sem env) rest st R (by simpa [AndE.sem] using h)
+      have hn := NotE.evals n (.and :: a'.toks ++ rest)
+      have htail := AndE.evalsTail a' (n.sem env) rest R (by simpa [AndE.sem] using h)
       simp only [AndE.toks, List.append_assoc, List.cons_append]
       rw [hh] at hn ⊢
-      exact Evals.cont env t _ st ht _ _ R hn htail
-  theorem OrE.evals (o : OrE) : ∀ (rest : List Tok) (st : List Bool),
+      exact Evals.cont env t _ none ht _ _ R hn htail
+  theorem OrE.evals (o : OrE) : ∀ (rest : List Tok),
       (rest = [] ∨ ∃ r, rest = .rp :: r) →
-      Evals env false (o.toks ++ rest) st (rest, o.sem env :: st) := by
+      Evals env false (o.toks ++ rest) none (rest, some (o.sem env)) := by
     cases o with
     | one a =>
-      intro rest st hr
-      simpa [OrE.toks, OrE.sem] using AndE.evals a rest st _ (Evals.stop env rest _ hr)
+      intro rest hr
+      simpa [OrE.toks, OrE.sem] using AndE.evals a rest _ (Evals.stop env rest _ hr)
     | cons a o' =>
-      intro rest st hr
-      have ih := OrE.evals o' rest (a.sem env :: st) hr
-      have hs := Evals.orStep env (o'.toks ++ rest) rest st (a.sem env) (o'.sem env) ih
-      have hc := Evals.cont env .or _ (a.sem env :: st) (by simp) _ _ _ hs (Evals.stop env rest _ hr)
-      have := AndE.evals a (.or :: o'.toks ++ rest) st _ hc
+      intro rest hr
+      have ih := OrE.evals o' rest hr
+      have hs := Evals.orStep env (o'.toks ++ rest) rest (a.sem env) (o'.sem env) ih
+      have hc := Evals.cont env .or _ (some (a.sem env)) (by simp) _ _ _ hs (Evals.stop env rest _ hr)
+      have := AndE.evals a (.or :: o'.toks ++ rest) _ hc
       simpa [OrE.toks, OrE.sem, List.append_assoc] using this
 end
 
-end YangVerif.IfFeature
-
-namespace YangVerif.IfFeature
-variable (env : String → Bool)
-
-theorem pop2_fst (op : Bool → Bool → Bool) (p q : St) (h : pop2 op p = some q) : q.1 = p.1 := by
-  obtain ⟨r, s⟩ := p
-  match s, h with
-  | b :: a :: s, h => simp [pop2] at h; rw [← h]
-theorem pop1_fst (op : Bool → Bool) (p q : St) (h : pop1 op p = some q) : q.1 = p.1 := by
-  obtain ⟨r, s⟩ := p
-  match s, h with
-  | a :: s, h => simp [pop1] at h; rw [← h]
-
 /-- the switch never lengthens the input, if the nested evaluator does not -/
-theorem switchF_len (rec : Bool → List Tok → List Bool → Option St) (t : Tok) (r : List Tok) (st : List Bool)
-    (hrec : ∀ g st R, rec g r st = some R → R.1.length ≤ r.length) (R : St)
-    (h : switchF rec false env t r st = some R) : R.1.length ≤ r.length := by
-  cases t with
-  | rp => simp [switchF] at h
-  | feat s => simp [switchF] at h; rw [← h]; exact Nat.le_refl _
-  | lp =>
-    simp only [switchF] at h
-    cases hn : rec false r st with
+theorem switchF_len (rec : Bool → List Tok → Option St) (t : Tok) (r : List Tok) (cur : Option Bool)
+    (hrec : ∀ g R, rec g r = some R → R.1.length ≤ r.length) (R : St)
+    (h : switchF rec env t r cur = some R) : R.1.length ≤ r.length := by
+  cases t <;> cases cur <;> simp only [switchF] at h <;> try (cases h)
+  · -- lp
+    cases hn : rec false r with
     | none => simp [hn] at h
     | some p =>
-      have hl := hrec _ _ _ hn
+      have hl := hrec _ _ hn
       rw [hn] at h
-      obtain ⟨r2, s1⟩ := p
+      obtain ⟨r2, c⟩ := p
       cases r2 with
       | nil => simp at h
       | cons x xs =>
-        cases x <;> simp at h
+        cases x <;> cases c <;> simp at h
         rw [← h]; simp at hl ⊢; omega
-  | and =>
-    simp only [switchF] at h
-    cases hn : rec true r st with
+  · -- and
+    cases hn : rec true r with
     | none => simp [hn] at h
     | some p =>
-      rw [hn] at h; simp only [Option.bind_some] at h
-      rw [pop2_fst _ _ _ h]; exact hrec _ _ _ hn
-  | or =>
-    simp only [switchF] at h
-    cases hn : rec false r st with
+      have hl := hrec _ _ hn
+      rw [hn] at h
+      obtain ⟨r1, c⟩ := p
+      cases c <;> simp at h
+      rw [← h]; exact hl
+  · -- or
+    cases hn : rec false r with
     | none => simp [hn] at h
     | some p =>
-      rw [hn] at h; simp only [Option.bind_some] at h
-      rw [pop2_fst _ _ _ h]; exact hrec _ _ _ hn
-  | not =>
-    simp only [switchF] at h
-    cases hn : rec true r st with
+      have hl := hrec _ _ hn
+      rw [hn] at h
+      obtain ⟨r1, c⟩ := p
+      cases c <;> simp at h
+      rw [← h]; exact hl
+  · -- not
+    cases hn : rec true r with
     | none => simp [hn] at h
     | some p =>
-      rw [hn] at h; simp only [Option.bind_some] at h
-      rw [pop1_fst _ _ _ h]; exact hrec _ _ _ hn
+      have hl := hrec _ _ hn
+      rw [hn] at h
+      obtain ⟨r1, c⟩ := p
+      cases c <;> simp at h
+      rw [← h]; exact hl
+  · -- feat
+    exact Nat.le_refl _
 
-theorem evalF_len : ∀ (f : Nat) (g : Bool) (toks : List Tok) (st : List Bool) (R : St),
-    evalF false env f g toks st = some R → R.1.length ≤ toks.length := by
+theorem evalF_len : ∀ (f : Nat) (g : Bool) (toks : List Tok) (cur : Option Bool) (R : St),
+    evalF env f g toks cur = some R → R.1.length ≤ toks.length := by
   intro f
   induction f with
-  | zero => intro g toks st R h; simp [evalF] at h
+  | zero => intro g toks cur R h; simp [evalF] at h
   | succ f ih =>
-    intro g toks st R h
+    intro g toks cur R h
     cases toks with
     | nil => simp [evalF] at h; rw [← h]; simp
     | cons t r =>
       by_cases ht : t = .rp
       · subst ht; simp [evalF] at h; rw [← h]; simp
-      · rw [evalF_step env _ g t r st ht] at h
-        cases hs : switchF (evalF false env f) false env t r st with
+      · rw [evalF_step env _ g t r cur ht] at h
+        cases hs : switchF (fun g' r' => evalF env f g' r' none) env t r cur with
         | none => simp [hs] at h
         | some p =>
-          have hl := switchF_len env _ t r st (fun g st R => ih g r st R) p hs
+          have hl := switchF_len env _ t r cur (fun g R => ih g r none R) p hs
           rw [hs] at h
-          obtain ⟨r', s'⟩ := p
+          obtain ⟨r', c'⟩ := p
           cases g with
           | true => simp at h; rw [← h]; simp at hl ⊢; omega
           | false =>
@@ -308,42 +288,14 @@ theorem evalF_len : ∀ (f : Nat) (g : Bool) (toks : List Tok) (st : List Bool) 
             have := ih _ _ _ _ h
             simp at hl ⊢; omega
 
-/-- the switch with a nested evaluator that agrees on the (shorter) rest -/
-theorem switchF_congr (rec1 rec2 : Bool → List Tok → List Bool → Option St) (t : Tok) (r : List Tok) (st : List Bool)
-    (hrec : ∀ g st R, rec1 g r st = some R → rec2 g r st = some R) (R : St)
-    (h : switchF rec1 false env t r st = some R) : switchF rec2 false env t r st = some R := by
-  cases t with
-  | rp => simp [switchF] at h
-  | feat s => simpa [switchF] using h
-  | lp =>
-    simp only [switchF] at h ⊢
-    cases hn : rec1 false r st with
-    | none => simp [hn] at h
-    | some p => rw [hrec _ _ _ hn]; rw [hn] at h; exact h
-  | and =>
-    simp only [switchF] at h ⊢
-    cases hn : rec1 true r st with
-    | none => simp [hn] at h
-    | some p => rw [hrec _ _ _ hn]; rw [hn] at h; exact h
-  | or =>
-    simp only [switchF] at h ⊢
-    cases hn : rec1 false r st with
-    | none => simp [hn] at h
-    | some p => rw [hrec _ _ _ hn]; rw [hn] at h; exact h
-  | not =>
-    simp only [switchF] at h ⊢
-    cases hn : rec1 true r st with
-    | none => simp [hn] at h
-    | some p => rw [hrec _ _ _ hn]; rw [hn] at h; exact h
-
 /-- `length + 1` is always enough fuel: whatever any amount of fuel computes, it computes too -/
-theorem fuel_enough : ∀ (f' : Nat) (f : Nat) (g : Bool) (toks : List Tok) (st : List Bool) (R : St),
-    toks.length + 1 ≤ f → evalF false env f' g toks st = some R → evalF false env f g toks st = some R := by
+theorem fuel_enough : ∀ (f' : Nat) (f : Nat) (g : Bool) (toks : List Tok) (cur : Option Bool) (R : St),
+    toks.length + 1 ≤ f → evalF env f' g toks cur = some R → evalF env f g toks cur = some R := by
   intro f'
   induction f' with
-  | zero => intro f g toks st R _ h; simp [evalF] at h
+  | zero => intro f g toks cur R _ h; simp [evalF] at h
   | succ f' ih =>
-    intro f g toks st R hf h
+    intro f g toks cur R hf h
     cases f with
     | zero => omega
     | succ f0 =>
@@ -352,27 +304,27 @@ theorem fuel_enough : ∀ (f' : Nat) (f : Nat) (g : Bool) (toks : List Tok) (st 
       | cons t r =>
         by_cases ht : t = .rp
         · subst ht; simpa [evalF] using h
-        · rw [evalF_step env _ g t r st ht] at h ⊢
+        · rw [evalF_step env _ g t r cur ht] at h ⊢
           simp only [List.length_cons] at hf
-          cases hs : switchF (evalF false env f') false env t r st with
+          cases hs : switchF (fun g' r' => evalF env f' g' r' none) env t r cur with
           | none => simp [hs] at h
           | some p =>
-            have hl := switchF_len env _ t r st (fun g st R => evalF_len env f' g r st R) p hs
-            rw [switchF_congr env _ (evalF false env f0) t r st
-              (fun g st R hh => ih f0 g r st R (by omega) hh) p hs]
+            have hl := switchF_len env _ t r cur (fun g R => evalF_len env f' g r none R) p hs
+            rw [switchF_congr env _ (fun g' r' => evalF env f0 g' r' none) t r cur
+              (fun g R hh => ih f0 g r none R (by omega) hh) p hs]
             rw [hs] at h
-            obtain ⟨r', s'⟩ := p
+            obtain ⟨r', c'⟩ := p
             cases g with
             | true => simpa using h
             | false =>
               simp only [Bool.false_eq_true, if_false] at h ⊢
-              exact ih f0 false r' s' R (by simp at hl; omega) h
+              exact ih f0 false r' c' R (by simp at hl; omega) h
 
 /-- **the evaluator computes the RFC 7950 meaning** of every expression of the grammar -/
-theorem evaluate_eq_sem (o : OrE) : evaluate false env o.toks = some (o.sem env) := by
-  obtain ⟨f, hf⟩ := OrE.evals env o [] [] (Or.inl rfl)
+theorem evaluate_eq_sem (o : OrE) : evaluate env o.toks = some (o.sem env) := by
+  obtain ⟨f, hf⟩ := OrE.evals env o [] (Or.inl rfl)
   simp only [List.append_nil] at hf
-  have := fuel_enough env f (o.toks.length + 1) false o.toks [] _ (Nat.le_refl _) hf
+  have := fuel_enough env f (o.toks.length + 1) false o.toks none _ (Nat.le_refl _) hf
   simp [evaluate, this]
 
 end YangVerif.IfFeature
